@@ -113,6 +113,10 @@ class Prop(core.Prop):
                             ('wind', rf.enc_wind, rf.dec_wind)):
             b = open(os.path.join(base, f, 'test.' + f), 'rb').read()
             assert enc(dec(b, 4, 5, 3)) == b, f
+        b = open(os.path.join(base, 'cloud_rain/test.cloud_rain'), 'rb').read()
+        assert rf.enc_cloud_rain(rf.dec_cloud_rain(b)) == b
+        b = open(os.path.join(base, 'landuse/test.landuse'), 'rb').read()
+        assert rf.enc_landuse(rf.dec_landuse(b, 4, 5)) == b
 
     def groups(self, tier):
         for fmt in camx_u.FORMATS:
